@@ -7,7 +7,7 @@ import traceback
 from .core import *
 from .classtable import ClassTable, Module, FuncInfo
 from .typesys import TypeSys
-from .interp import (Interp, InterpExpr, InterpComp, InterpStmt, InterpCall, Frame, EXEC, GENERIC, SPEC, I, B, R, arr,
+from .interp import (Interp, InterpExpr, InterpComp, InterpStmt, InterpCall, Frame, EXEC, GENERIC, SPEC, SPECULATE, I, B, R, arr,
                      PathEnd)
 from .builtins import InterpBuiltins
 from .hooks import Registry, Contract
@@ -176,6 +176,19 @@ class Engine(Interp, InterpExpr, InterpComp, InterpStmt, InterpCall, InterpBuilt
 
     # ------------------------------------------------------------------ modular calls
     def call_by_contract(self, con, fi, args, kwargs, line, selfv=None):
+        if self.mode == SPECULATE:
+            raise SpeculationFailed()
+        if self.mode == GENERIC:
+            # a modular call for a *generic* element must not yield one fresh result for all elements and cannot fork the
+            # callee's exceptional outcomes.  It is supported when the callee cannot raise, writes nothing, has no ghost
+            # effect and returns scalars: the result is then Skolemised over the bound variables (see below); anything
+            # else is refused rather than be unsound
+            rty0 = self.ts.ann_to_type(ast.parse(con.returns, mode='eval').body, fi.module) if con.returns else self.ts.return_type(fi)
+            if not (self.generic_scopes and not con.raises and not con.effect and con.modifies is not None
+                    and self._skolemisable(rty0)):
+                raise Unsupported(f'call of {con.target} (by contract) inside a summarised comprehension / generic element '
+                                  f'evaluation at line {line}: give the enclosing loop an invariant or inline the callee '
+                                  f'(supported only for callees with raises=(), modifies [] and scalar results)')
         self.by_contract.add(con.target)
         vars_ = self.bind_params(fi, args, kwargs, line)
         bindings = dict(vars_)
@@ -186,6 +199,8 @@ class Engine(Interp, InterpExpr, InterpComp, InterpStmt, InterpCall, InterpBuilt
             self.run.assume(t)
         heap_before = self.heap.snapshot()
         mods = self.eval_modifies(con, bindings)
+        if self.mode == GENERIC and mods:
+            raise Unsupported(f'call of {con.target} (by contract, non-empty modifies) inside a summarised comprehension at line {line}')
         if not con.pure:
             self.heap.havoc(self.allowed_fn(mods))
         if con.effect:
